@@ -153,3 +153,57 @@ Proof.
   destruct (keeps_all st1 st2 W1 K2 k ltac:(lia)) as (A2 & B2').
   split; [rewrite D by lia; congruence|rewrite DC by lia; congruence].
 Qed.
+
+(* ---------------------------------------------------------------- Tractogram.copy() = copy.deepcopy: a clone per component *)
+Theorem deep_copy_spec st i : reachable st -> is_live st i = true ->
+  let st' := fst (step st (ODeepCopy i)) in
+  let n := length (seqs st) in
+  snd (step st (ODeepCopy i)) = ROk /\ reachable st' /\ length (seqs st') = S n /\ is_live st' n = true /\
+  C st' n = C st i /\ keeps st st' /\ length (heap st) <= sbuf (getseq st' n).
+Proof.
+  intros R L. cbv zeta. pose proof (reachable_step st (ODeepCopy i) R) as R'.
+  unfold step in *. rewrite L in *. cbn [fst snd] in *.
+  set (s := getseq st i) in *.
+  set (s' := mkSeq (length (heap st)) (offs s) (lens s) (is_view s) (bufbytes s) (scache s) true) in *.
+  set (st' := mkSt (heap st ++ [getbuf (heap st) (sbuf s)]) (seqs st ++ [s'])) in *.
+  assert (GN : getseq st' (length (seqs st)) = s') by (unfold getseq, st'; simpl; apply nth_app_new).
+  assert (LN : length (seqs st') = S (length (seqs st))) by (unfold st'; simpl; rewrite app_length; simpl; lia).
+  split; [auto|split; [exact R'|split; [exact LN|split; [|split; [|split]]]]].
+  - unfold is_live. rewrite LN, GN. assert (E : (length (seqs st) <? S (length (seqs st))) = true) by (apply Nat.ltb_lt; lia).
+    rewrite E. reflexivity.
+  - unfold C. rewrite GN. unfold contents, s'. cbn [sbuf offs lens]. unfold st'. cbn [heap]. rewrite getbuf_app_new. reflexivity.
+  - unfold keeps, st'; simpl. rewrite !app_length; simpl. split; [lia|split; [lia|split]].
+    + intros k Hk. unfold getseq; simpl. apply nth_app_old; auto.
+    + intros b Hb. apply getbuf_app_old; auto.
+  - rewrite GN. simpl. lia.
+Qed.
+
+(* Tractogram.__add__(other) component-wise: tractogram = self.copy(); tractogram += other *)
+Definition tadd_component (st : state) (c : nat) (b : Z) (oc : nat) : state :=
+  let st1 := fst (step st (ODeepCopy c)) in
+  fst (step st1 (OExtendSeq (length (seqs st)) b oc)).
+
+(* the component of the sum is the new object length (seqs st): it shows the elements of c followed by
+   those of oc; NO existing object changes — in particular no component of either operand, whatever
+   they share (self + self, self + self[idx], ...) *)
+Theorem tadd_component_spec st c b oc : reachable st -> is_live st c = true -> is_live st oc = true ->
+  let st' := tadd_component st c b oc in
+  let n := length (seqs st) in
+  reachable st' /\ C st' n = spec_extend (C st c) (C st oc) /\
+  (forall k, k < n -> getseq st' k = getseq st k /\ C st' k = C st k).
+Proof.
+  intros R Lc Lo. cbv zeta. unfold tadd_component.
+  pose proof (reachable_wf st R) as W.
+  destruct (deep_copy_spec st c R Lc) as (_ & R1 & L1 & Ln & C1 & K1 & _). cbv zeta in *.
+  set (st1 := fst (step st (ODeepCopy c))) in *. set (n := length (seqs st)) in *.
+  assert (Lo1 : is_live st1 oc = true).
+  { pose proof (is_live_lt _ _ Lo) as Ho. unfold is_live in *. apply andb_prop in Lo. destruct Lo as (_ & Lv).
+    rewrite L1. assert (E : (oc <? S n) = true) by (apply Nat.ltb_lt; unfold n; lia). rewrite E. cbn [andb].
+    destruct K1 as (_ & _ & K3 & _). rewrite K3; auto. }
+  split; [apply reachable_step; auto|split].
+  - rewrite (own_extend_seq st1 n b oc R1 Ln Lo1). rewrite C1.
+    rewrite (proj2 (keeps_all st st1 W K1 oc (is_live_lt _ _ Lo))). reflexivity.
+  - intros k Hk.
+    destruct (grow_isolated st1 (OExtendSeq n b oc) n R1 eq_refl k ltac:(lia) ltac:(lia)) as (A & B).
+    destruct (keeps_all st st1 W K1 k Hk) as (A1 & B1). split; congruence.
+Qed.
